@@ -28,8 +28,7 @@ PIDivideOnDomain(bw, inv, index, f) ==
 
 (* ComputeBarycentricCoefficients(point) as written *)
 PIBarycentric(bw, point) ==
-  LET le == [i \in 1 .. WDom |-> FMul(WR, FSub(WR, point, PFr(i - 1)), bw[i])]
-      tp == FoldLeft(LAMBDA acc, i : FMul(WR, acc, FSub(WR, point, PFr(i - 1))), NMod(N1, WR), PIdx)
-      li == FBatchInv(WR, le)
-  IN  [i \in 1 .. WDom |-> FMul(WR, li[i], tp)]
+  ELet(FoldLeft(LAMBDA acc, i : FMul(WR, acc, FSub(WR, point, PFr(i - 1))), NMod(N1, WR), PIdx), LAMBDA tp :
+  ELet(FBatchInv(WR, [i \in 1 .. WDom |-> FMul(WR, FSub(WR, point, PFr(i - 1)), bw[i])]), LAMBDA li :
+    [i \in 1 .. WDom |-> FMul(WR, li[i], tp)]))
 =============================================================================
